@@ -27,7 +27,13 @@ type Fault struct {
 	Nth  int    `json:"nth,omitempty"`  // F6: n-th hit of (site,key) inside this transaction attempt (0/1 = first)
 
 	FP string `json:"fp,omitempty"` // F7: bbolt failpoint name
+
+	// Flavour (F3, F6): the type of the injected error. "" a plain error; "notfound" / "dup" / "refexists" one of the
+	// library's own error types (a failure must reach the caller whatever its type is)
+	Flavour string `json:"flavour,omitempty"`
 }
+
+var faultFlavours = []string{"", "", "notfound", "dup", "refexists"}
 
 func (f Fault) String() string {
 	b, _ := json.Marshal(f)
@@ -42,6 +48,9 @@ type TxPlan struct {
 	Arg  string   `json:"arg,omitempty"`
 	Args []string `json:"args,omitempty"`
 	N    int      `json:"n,omitempty"`
+	// Ctx: the context handed to Db.Update / Db.Batch. "" a fresh ordinary context, "nil" no context at all (the
+	// library makes one), "sys" a system context (every operation of the transaction then runs as system)
+	Ctx string `json:"ctx,omitempty"`
 }
 
 type TaskPlan struct {
@@ -127,7 +136,9 @@ type Universe struct {
 	Depts, DeptNames, People, Names, Nicks, Roles, Badges, Notes, Tickets, Groups, BadgeNos, Memos, TagKeys, MemoIds []string
 }
 
-// Ids and values are disjoint alphabets so that "the id occurs nowhere" is decidable by byte search. The people
+// Ids and values are disjoint alphabets so that "the id occurs nowhere" is decidable by byte search, with two
+// deliberate exceptions: badge "p2" and note "p3" share their id with a person (state that a constraint keeps per
+// id must not leak from one store's entity to another's; sharedId() relaxes the trace search for them). The people
 // and group universes deliberately contain hostile id strings (quote, backslash, filter syntax): C04 quantifies
 // over all id strings.
 var U = Universe{
@@ -137,8 +148,8 @@ var U = Universe{
 	Names:     []string{"n1", "n2", "n3", "n4", "n5"},
 	Nicks:     []string{"k1", "k2"},
 	Roles:     []string{"r1", "r2", "r3"},
-	Badges:    []string{"b1", "b2", "b3"},
-	Notes:     []string{"o1", "o2", "o3", "o4", "o5", "zn"},
+	Badges:    []string{"b1", "b2", "b3", "p2"},
+	Notes:     []string{"o1", "o2", "o3", "o4", "o5", "zn", "p3"},
 	Tickets:   []string{"t1", "t2", "zt"},
 	Groups:    []string{"g1", "g2", "g3", "g1a", `g"4`},
 	BadgeNos:  []string{"bn1", "bn2", "bn3"},
@@ -149,6 +160,9 @@ var U = Universe{
 
 const nHostilePeople = 5 // (the id before them, p1a, has p1 as a strict prefix)
 // hostile: quote, backslash, filter syntax, backslash + escape letter, double backslash
+
+// sharedId: the id is used by entities of more than one store.
+func sharedId(id string) bool { return id == "p2" || id == "p3" }
 
 func (u Universe) ByStore() map[string][]string {
 	return map[string][]string{StDepts: u.Depts, StPeople: u.People, StStaff: u.People, StPX: u.People, StBadges: u.Badges,
@@ -274,9 +288,14 @@ func (g *gen) personFields(op *Op, exclude string) {
 	}
 	switch g.r.IntN(4) {
 	case 0:
-		op.Tags = map[string]any{pick(g.r, U.TagKeys): "tv"}
+		// tka always holds a string, tkb a bool (letters only: the query grammar has no digits in map keys): the tag query of the views oracle stays within one type
+		op.Tags = map[string]any{"tka": pick(g.r, []string{"tv", "tv", "tw"})}
 	case 1:
-		op.Tags = map[string]any{pick(g.r, U.TagKeys): true, "tk3": nil}
+		op.Tags = map[string]any{"tkb": true, "tk3": nil}
+	case 2:
+		if g.r.IntN(2) == 0 {
+			op.Tags = map[string]any{"tka": pick(g.r, []string{"tv", "tw"}), "tkb": g.r.IntN(2) == 0}
+		}
 	}
 	ng := g.r.IntN(3)
 	for i := 0; i < ng; i++ {
@@ -580,6 +599,11 @@ func (g *gen) genOp() Op {
 		op.Fail = g.r.IntN(3) == 0
 	case "commitAction":
 		op.K = "commitAction"
+	case "listen":
+		// a listener registered while the transaction is in flight (between its operations and its commit)
+		op.K = "listen"
+		op.S = pick(g.r, []string{StPeople, StPeople, StStaff, StPX, StBadges, StNotes, StGroups, StDepts})
+		op.N = g.r.IntN(3)
 	default:
 		panic("gen: unknown kind " + kind)
 	}
@@ -652,9 +676,11 @@ func (g *gen) genFault(nops int) Fault {
 	case "F5":
 		return Fault{Kind: "F5", At: g.r.IntN(nops + 1)}
 	case "F3":
-		return Fault{Kind: "F3", Store: pick(g.r, AllStores), Change: pick(g.r, []string{EvCreate, EvUpdate, EvDelete, EvDelete}), Typed: g.r.IntN(2) == 0}
+		return Fault{Kind: "F3", Store: pick(g.r, AllStores), Change: pick(g.r, []string{EvCreate, EvUpdate, EvDelete, EvDelete}), Typed: g.r.IntN(2) == 0, Flavour: pick(g.r, faultFlavours)}
 	case "F6":
-		return g.f6()
+		f := g.f6()
+		f.Flavour = pick(g.r, faultFlavours)
+		return f
 	case "F7":
 		return Fault{Kind: "F7", FP: pick(g.r, []string{"beforeWriteMetaError", "beforeWriteMetaError", "lackOfDiskSpace"})}
 	}
@@ -863,6 +889,12 @@ func (g *gen) genTx() TxPlan {
 			return btx
 		}
 	}
+	switch g.r.IntN(16) {
+	case 0:
+		tx.Ctx = "nil"
+	case 1, 2:
+		tx.Ctx = "sys"
+	}
 	n := 1 + g.r.IntN(g.cfg.MaxOps)
 	// the shadow only guides argument choice; it assumes sequential execution of the plan as generated
 	saved := g.shadow
@@ -881,6 +913,9 @@ func (g *gen) genTx() TxPlan {
 		}
 		if (g.cfg.Profile == "tx" || g.cfg.Profile == "txenum") && g.r.IntN(8) == 0 {
 			op.Nested = true // issued inside a nested Db.Update on the already bound context
+		}
+		if tx.Ctx == "sys" {
+			op.Sys = true
 		}
 		tx.Ops = append(tx.Ops, op)
 		if o := g.shadow.Apply(op, 0); !o.OK && !o.Skipped {
@@ -912,7 +947,7 @@ func defaultWeights(prop string) map[string]int {
 	case "conc":
 		w = map[string]int{"create": 36, "update": 30, "delete": 12, "link": 16, "rc": 4, "deleteWhere": 2}
 	case "C07", "C08":
-		w = map[string]int{"create": 32, "update": 24, "delete": 16, "link": 10, "rc": 4, "deleteWhere": 2, "preCommit": 5, "commitAction": 7}
+		w = map[string]int{"create": 32, "update": 24, "delete": 16, "link": 10, "rc": 4, "deleteWhere": 2, "preCommit": 5, "commitAction": 7, "listen": 3}
 	}
 	return w
 }
@@ -1072,6 +1107,11 @@ func genConcurrent(profile, prop string, seed uint64, r *rand.Rand) *Plan {
 			if kind == "stream" && r.IntN(5) == 0 {
 				snap.N = r.IntN(40000) // F11: writer fails after N bytes
 			}
+			if kind == "file" {
+				// a path of its own, the same path as other snapshots of this run (overwritten), or a DATE / TIME template
+				// (two snapshots within one second of the simulated clock then expand to the same file)
+				snap.Args = []string{pick(r, []string{"unique", "same", "same", "template"})}
+			}
 			return snap
 		}
 		if r.IntN(3) == 0 {
@@ -1080,8 +1120,8 @@ func genConcurrent(profile, prop string, seed uint64, r *rand.Rand) *Plan {
 		tp.Txs = append(tp.Txs, snapTx())
 		n := 2 + r.IntN(6)
 		for i := 0; i < n; i++ {
-			switch r.IntN(8) {
-			case 0:
+			switch r.IntN(9) {
+			case 0, 8:
 				tp.Txs = append(tp.Txs, snapTx())
 			case 1, 2, 3:
 				rs := TxPlan{Mode: "restore", Arg: pick(r, []string{"bytes", "reader", "reader"}), N: -1}
